@@ -1179,6 +1179,25 @@ c49152 NEG
 @defb=60030:"a;b",1 ; comment
  49156 RET
 """, False),
+    # @assemble=,1 (data definitions only) and @assemble=,2 with lower- and upper-case statements: the
+    # #PEEK-visible snapshot holds every DEFB/DEFM/DEFS/DEFW byte whatever the case of the source
+    # (seeded C04-set-byte-values-lowercase-def was missed: no generated file changed the assemble level)
+    ('assemble-level-case', """@start
+@org
+@assemble=,1
+; Data P40000=#PEEK40000; P40001=#PEEK40001; P40002=#PEEK40002; P40003=#PEEK40003; P40004=#PEEK40004; P40005=#PEEK40005; P40006=#PEEK40006; P40007=#PEEK40007; P40008=#PEEK40008; P40009=#PEEK40009;
+b40000 defb 201,2
+ 40002 DEFW 1027
+ 40004 defs 2,255
+ 40006 defm "ab"
+ 40008 defw 513
+
+@assemble=,2
+; Routine P40010=#PEEK40010; P40011=#PEEK40011; P40012=#PEEK40012; P40013=#PEEK40013;
+c40010 ld a,7
+ 40012 defb 9
+ 40013 RET
+""", True),
 ]
 DIRECTED_MODES = ('isub', 'bfix', 'rfix')
 
